@@ -197,7 +197,9 @@ Record obs2 := { o2_key : option string; o2_hit : bool; o2_calls : nat; o2_out :
 
 Inductive case2 :=
 | CC (sha : alist) (steps : list (cc_cfg * obs2))
-| JF (sha : alist) (kid_conf : option string) (s0 : signer) (steps : list (jstep * option obs2)).
+| JF (sha : alist) (kid_conf : option string) (s0 : signer) (steps : list (jstep * option obs2))
+| HC (sha : alist) (c : hc_cfg) (steps : list (alist * obs2))
+| JK (sha : alist) (w : jwks_world) (steps : list ((jk_cfg * jtok) * obs2)).
 
 Definition sres_matches2 (m : sres) (o : obs2) : bool :=
   option_eqb String.eqb (sr_key m) (o2_key o) && Bool.eqb (sr_hit m) (o2_hit o) &&
@@ -213,12 +215,20 @@ Fixpoint exec_obs (l : list (jstep * option obs2)) : list obs2 :=
 Fixpoint jf_shape_ok (l : list (jstep * option obs2)) : bool :=
   match l with
   | [] => true
-  | (JExec _ _, Some _) :: r | (JReload _, None) :: r => jf_shape_ok r
+  | (JExec _ _, Some _) :: r | (JReload _ _, None) :: r => jf_shape_ok r
   | _ => false
   end.
 
-Definition corr2 (c : case2) : bool :=
+Definition corr2 (fx5 fx8 : bool) (c : case2) : bool :=
   match c with
+  | JK sha w steps =>
+    let H := H_tab sha in
+    all2 sres_matches2 (jk_run H w [] (map fst steps)) (map snd steps) &&
+    forallb (fun x => outcome_eqb (jk_fresh w (fst (fst x)) (snd (fst x))) (o2_fresh (snd x))) steps
+  | HC sha cfg steps =>
+    let H := H_tab sha in
+    all2 sres_matches2 (hc_run fx8 H cfg [] (map fst steps)) (map snd steps) &&
+    forallb (fun x => outcome_eqb (OAllow (hc_result cfg (fst x))) (o2_fresh (snd x))) steps
   | CC sha steps =>
     let H := H_tab sha in
     all2 sres_matches2 (cc_run H [] (map fst steps)) (map snd steps) &&
@@ -227,7 +237,7 @@ Definition corr2 (c : case2) : bool :=
     let H := H_tab sha in
     jf_shape_ok steps &&
     all2 (fun (m : sres * outcome) o => sres_matches2 (fst m) o && outcome_eqb (snd m) (o2_fresh o))
-         (jrun H kc s0 [] (map fst steps)) (exec_obs steps)
+         (jrun fx5 H kc s0 [] (map fst steps)) (exec_obs steps)
   end.
 
 (** (P2) for client credentials: the same configuration again, caching on: no call to the token endpoint *)
@@ -246,29 +256,59 @@ Fixpoint jf_hits_from (since_reload : list (jf_cfg * jreq)) (l : list (jstep * o
     (negb (jf_stores c && is_allow (o2_fresh o) &&
            existsb (fun x => jf_cfg_eqb (fst x) c && jreq_eqb (snd x) q) since_reload) || o2_hit o)
     && jf_hits_from (since_reload ++ [(c, q)]) r
-  | (JReload _, _) :: r => jf_hits_from [] r
+  | (JReload _ _, _) :: r => jf_hits_from [] r
   | _ :: r => jf_hits_from since_reload r
+  end.
+
+(** (P2) for the RFC 7234 cache: the same request headers again, response storable: no call *)
+Fixpoint hc_hits_from (stores : bool) (earlier : list alist) (l : list (alist * obs2)) : bool :=
+  match l with
+  | [] => true
+  | (x, o) :: r =>
+    (negb (stores && existsb (alist_eqb x) earlier) || Nat.eqb (o2_calls o) 0) && hc_hits_from stores (earlier ++ [x]) r
+  end.
+
+(** (P2) for the key cache: the same token at the same instance again, key fetched before: no call *)
+Fixpoint jk_hits_from (w : jwks_world) (earlier : list (jk_cfg * jtok)) (l : list ((jk_cfg * jtok) * obs2)) : bool :=
+  match l with
+  | [] => true
+  | (x, o) :: r =>
+    (negb (jk_enabled (fst x) && match jk_lookup w (fst x) (snd x) with JKKey _ => true | _ => false end &&
+           existsb (fun y => jk_cfg_eqb (fst y) (fst x) && jtok_eqb (snd y) (snd x)) earlier)
+     || Nat.eqb (o2_calls o) 0) && jk_hits_from w (earlier ++ [x]) r
   end.
 
 Definition prop2 (c : case2) : bool :=
   match c with
+  | JK _ w steps =>
+    forallb (fun x => outcome_eqb (o2_out (snd x)) (o2_fresh (snd x))) steps && jk_hits_from w [] steps
+  | HC _ cfg steps =>
+    forallb (fun x => outcome_eqb (o2_out (snd x)) (o2_fresh (snd x))) steps &&
+    hc_hits_from (hc_stores false cfg) [] steps
   | CC _ steps => forallb (fun x => outcome_eqb (o2_out (snd x)) (o2_fresh (snd x))) steps && cc_hits_from [] steps
   | JF _ _ _ steps => forallb (fun o => outcome_eqb (o2_out o) (o2_fresh o)) (exec_obs steps) && jf_hits_from [] steps
   end.
 
-Definition check2 (c : case2) : verdict :=
-  {| v_corr := corr2 c;
+(** [fx5]: the signer hash covers the key (repair of F5); [fx8]: responses with Vary are not stored *)
+Definition check2 (fx5 fx8 : bool) (c : case2) : verdict :=
+  {| v_corr := corr2 fx5 fx8 c;
      v_prop := prop2 c;
      v_guards := match c with
+                 | JK sha _ steps => guards [(4%Z, g_jk_F4 (H_tab sha) (map fst steps))]
+                 | HC _ cfg steps => guards [(8%Z, g_F8 fx8 cfg (map fst steps))]
                  | CC _ steps => guards [(4%Z, g_cc_F4 (map fst steps))]
-                 | JF sha kc s0 steps => guards [(4%Z, g_jf_F4 (H_tab sha) kc s0 (map fst steps));
-                                                  (5%Z, g_F5 kc s0 (map fst steps))]
+                 | JF sha kc s0 steps => guards [(4%Z, g_jf_F4 fx5 (H_tab sha) kc s0 (map fst steps));
+                                                  (5%Z, g_F5 kc s0 (map fst steps) && negb fx5)]
                  end |}.
 
 Definition ccc u i s sc t b := {| cc_url := u; cc_id := i; cc_secret := s; cc_scopes := sc; cc_ttl := t; cc_body_auth := b |}.
 Definition ob2 k h n o f := {| o2_key := k; o2_hit := h; o2_calls := n; o2_out := o; o2_fresh := f |}.
 Definition jfc k i c t := {| jf_key_id := k; jf_iss := i; jf_claims := c; jf_ttl := t |}.
 Definition jrq sid sj o oj := {| j_sub_id := sid; j_sub_json := sj; j_outputs := o; j_outputs_json := oj |}.
-Definition sgn k g := {| sg_kid := k; sg_gen := g |}.
+Definition sgn k g t := {| sg_kid := k; sg_gen := g; sg_thumb := t |}.
 Definition jtk sub cl iss kid gen := enc_jtoken {| jt_sub := sub; jt_claims := cl; jt_iss := iss; jt_kid := kid; jt_gen := gen |}.
 Definition cct (c : cc_cfg) := cc_result c.
+Definition hcc u m v c := {| hc_url := u; hc_method := m; hc_vary := v; hc_cacheable := c |}.
+Definition jkc u h t := {| jk_url := u; jk_headers := h; jk_ttl := t |}.
+Definition jtk2 i k sg sub := {| t_iss := i; t_kid := k; t_signer := sg; t_sub := sub |}.
+Definition jko (sub : string) := jk_owner_result sub.
